@@ -4,10 +4,15 @@
    "nattr":[[id,attrs]…], "eattr":[[id,attrs]…], "net":attrs, "uid":nat, "frozen":bool, "cls":"hg"|"sc"}.
   Memberships are derived from the edges (edge order).  Inputs that are not well-formed networks
   (repeated IDs, `None`, members that are not nodes) are answered "unmodelled".
+  Directed networks ("DH"): {"nodes":[ids], "edges":[[id,[tail],[head]]…], "nattr", "eattr", "net", "uid", "frozen"};
+  requests sc_cleanup / sc_relabel (on "H" with cls "sc") and dh_cleanup / dh_relabel (on "DH") run the C03 / C02
+  models through XgiModel/C19/Other.lean and answer with the snapshot of the respective state-machine driver.
 -/
 import XgiModel.Proto
 import XgiModel.Drive.HG
 import XgiModel.C19.Derived
+import XgiModel.C19.Other
+import XgiModel.C02.Drive
 open Lean Xgi.Proto
 
 namespace Xgi.C19.Drive
@@ -56,10 +61,59 @@ def hgOfJson? (j : Json) : Option (Option (HG × Cls)) := do
       frozen := frozen }
   pure (some (s, cls))
 
+/-- a directed network; `none` inside = not well formed (outside the model) -/
+def dhgOfJson? (j : Json) : Option (Option DHG) := do
+  let nodes ← getIds? j "nodes"
+  let es ← getArr? j "edges"
+  let edges ← es.mapM (fun p => match p with
+    | .arr #[i, t, h] => do pure ((← idOfJson? i), (← idsOfJson? t), (← idsOfJson? h))
+    | _ => none)
+  let nattr ← pairs? j "nattr" attrsOfJson?
+  let eattr ← pairs? j "eattr" attrsOfJson?
+  let net ← match getField? j "net" with | none => pure [] | some a => attrsOfJson? a
+  let uid := (getNat? j "uid").getD 0
+  let frozen := (getBool? j "frozen").getD false
+  let eids : List PyId := edges.map (·.1)
+  let ok := decide nodes.Nodup && decide eids.Nodup && !(nodes.contains .none) && !(eids.contains .none) &&
+    edges.all (fun p => decide p.2.1.Nodup && decide p.2.2.Nodup && p.2.1.all (fun n => nodes.contains n) &&
+      p.2.2.all (fun n => nodes.contains n))
+  if !ok then pure none else
+  let s : DHG :=
+    { nodes := nodes
+      edges := eids
+      membIn := fun n => if n ∈ nodes then (edges.filter (fun p => n ∈ p.2.2)).map (·.1) else []
+      membOut := fun n => if n ∈ nodes then (edges.filter (fun p => n ∈ p.2.1)).map (·.1) else []
+      tail := fun e => ((edges.find? (fun p => p.1 = e)).map (·.2.1)).getD []
+      head := fun e => ((edges.find? (fun p => p.1 = e)).map (·.2.2)).getD []
+      nattrK := nodes
+      eattrK := eids
+      nattr := assoc nattr []
+      eattr := assoc eattr []
+      net := net
+      uid := uid
+      frozen := frozen }
+  pure (some s)
+
 def unmodelled : Json := Json.mkObj [("out", "unmodelled")]
 
 def result (r : HG × Outcome) : Json :=
   if r.2.isErr then Json.mkObj [("out", HG.Drive.outcomeJson r.2)] else HG.Drive.respond r.1 r.2
+
+/-- directed results: an in-place call answers with the state left behind (also when it raised), a call that
+    returns a new network answers with that network, or with the outcome alone when it raised -/
+def resultD (inPlace : Bool) (r : Option (DHG × Outcome)) : Json :=
+  match r with
+  | none => unmodelled
+  | some r => if !inPlace && r.2.isErr then Json.mkObj [("out", DHG.Drive.outcomeJson r.2)] else DHG.Drive.respond r.1 r.2
+
+def resultS (inPlace : Bool) (r : HG × Outcome) : Json :=
+  if !inPlace && r.2.isErr then Json.mkObj [("out", HG.Drive.outcomeJson r.2)] else HG.Drive.respond r.1 r.2
+
+def withDH (j : Json) (f : DHG → Option Json) : Json :=
+  match (getField? j "DH").bind dhgOfJson? with
+  | none => badOp
+  | some none => unmodelled
+  | some (some s) => (f s).getD badOp
 
 def optIds? (j : Json) (k : String) : Option (Option (List PyId)) :=
   match getField? j k with
@@ -102,6 +156,20 @@ def handle (st : Unit) (j : Json) : Unit × Json :=
         pure (match guardCleanup s a b c d e with | none => unmodelled | some r => HG.Drive.respond r.1 r.2)
       else
         pure (match cleanupNew s a b c d e with | none => unmodelled | some r => result r)
+  | some "sc_cleanup" => withH j "H" fun s c => do
+      if c != Cls.sc then none
+      let ip ← getBool? j "in_place"
+      pure (resultS ip (scCleanup s (← getBool? j "isolates") (← getBool? j "connected") (← getBool? j "relabel") ip))
+  | some "sc_relabel" => withH j "H" fun s c => do
+      if c != Cls.sc then none
+      let ip ← getBool? j "in_place"
+      pure (resultS ip (scRelabel s (← getStr? j "label_attribute") ip))
+  | some "dh_cleanup" => withDH j fun s => do
+      let ip ← getBool? j "in_place"
+      pure (resultD ip (dhCleanup s (← getBool? j "isolates") (← getBool? j "relabel") ip))
+  | some "dh_relabel" => withDH j fun s => do
+      let ip ← getBool? j "in_place"
+      pure (resultD ip (dhRelabel s (← getStr? j "label_attribute") ip))
   | _ => badOp)
 where
   /-- `H.cleanup(in_place=True)` through the public step function (a frozen network raises at the
